@@ -17,6 +17,8 @@ pub(crate) use ephemeral_stream::ephemeral_stream;
 pub use ephemeral_stream::{
     EphemeralMessage, EphemeralPublishError, EphemeralStreamPublisher, EphemeralStreamSubscription,
 };
+#[cfg(p2panda_p2panda_verif)]
+pub use ephemeral_stream::{verif_wrapped_from_bytes, verif_wrapped_to_bytes};
 pub use event_stream::SystemEvent;
 pub(crate) use event_stream::event_stream;
 pub use replay::{ReplayError, StreamFrom};
